@@ -484,6 +484,10 @@ where
         serde_json::to_string(&res)
     }
     .unwrap();
+    #[cfg(wilfred_garden_verif)]
+    if crate::verif_hooks::capture(&serialized) {
+        return;
+    }
     println!("{serialized}");
 }
 
@@ -944,5 +948,22 @@ pub(crate) fn json_session(interrupted: Arc<AtomicBool>) {
 
             print_as_json(&err_response, pretty_print_json);
         }
+    }
+}
+
+/// Wrappers exposing private items to the verification hooks.
+#[cfg(wilfred_garden_verif)]
+pub(crate) mod verif_access {
+    use super::*;
+
+    pub(crate) fn handle_request_in_worker(req_src: &str, env: &mut Env, session: &mut Session) {
+        super::handle_request_in_worker(req_src, env, session)
+    }
+
+    pub(crate) fn is_interrupt_request(req_src: &str) -> bool {
+        matches!(
+            serde_json::from_str::<Request>(req_src),
+            Ok(Request::Interrupt)
+        )
     }
 }
